@@ -29,7 +29,7 @@ func main() {
 	if v, err := strconv.Atoi(os.Getenv("SYMGO_REFRESH_DEFS")); err == nil && v > 0 {
 		defsRefreshLimit = v // testing aid: force solver restarts
 	}
-	debug.SetMemoryLimit(5 << 30) // soft: the collector works harder instead of letting a worker grow past this
+	debug.SetMemoryLimit(2500 << 20) // soft: the collector works harder instead of letting a worker grow past this
 	if len(os.Args) < 2 {
 		fmt.Fprintln(os.Stderr, "usage: symgo run|check|selfcheck ...")
 		os.Exit(2)
